@@ -120,7 +120,7 @@ def oracle(line, impl_line):
     o = parse_out(impl_line)
     if o is None:
         return "implementation crashed"
-    if any(x == [888888] for x in o):
+    if any(x == [18446744073710440504] for x in o):
         return "panic on hostile input under a legal call history"
     if mode == "req_run":
         done = o[0][0]
@@ -175,7 +175,7 @@ def group_oracle(items):
         views = []
         for idx, line, out in lst:
             o = parse_out(out)
-            if o is None or [888888] in o:
+            if o is None or [18446744073710440504] in o:
                 continue
             wire_len = 0 if key[2] == "-" else key[2].count(",") + 1
             done, unfed = o[0][0], o[0][1]
